@@ -36,7 +36,7 @@ class PrintUsingFormatter:
                     non_formatting = ''
                 self.fmt_parts.append(('str', fmt[i]))
                 i += 1
-            elif fmt[i] == '_':
+            elif fmt[i] == '_' and i + 1 < len(fmt):
                 non_formatting += fmt[i+1]
                 i += 2
             else:
@@ -53,6 +53,7 @@ class PrintUsingFormatter:
         i = idx
         sharps = 0
         real_sharps = 0
+        decimals = 0
 
         if fmt[i] in '+-':
             options['sign'] = ('begin', fmt[i])
@@ -69,6 +70,8 @@ class PrintUsingFormatter:
             elif fmt[i] == '#':
                 sharps += 1
                 real_sharps += 1
+                if 'decimal_point' in options:
+                    decimals += 1
                 i += 1
             elif fmt[i] == ',':
                 options['comma'] = True
@@ -84,6 +87,8 @@ class PrintUsingFormatter:
                 break
 
         options['real_sharps'] = real_sharps
+        if 'decimal_point' in options:
+            options['decimals'] = decimals
         return i - idx, ('num', sharps*'#', options)
 
 
@@ -118,46 +123,44 @@ class PrintUsingFormatter:
 
 
     def format_number(self, fmt, value, options):
+        # the width of the field is the length of its format text
+        # (which includes the sign positions, commas and the decimal
+        # point)
+        width = len(fmt)
+
+        # round to the number of digits after the decimal point of
+        # the field; a field with no decimal point shows no fraction
+        decimals = options.get('decimals', 0)
         fmt_str = '{:'
         if options.get('comma', False):
             fmt_str += ','
-        if 'decimal_point' in options:
-            fmt_str += '.'
-            fmt_str += str(len(fmt) - options['decimal_point'])
-            fmt_str += 'f'
-        fmt_str += '}'
+        fmt_str += f'.{decimals}f}}'
+        result = fmt_str.format(abs(value))
+        if 'decimals' in options and decimals == 0:
+            # "##." shows the decimal point
+            result += '.'
 
+        negative = value < 0
         if 'sign' in options:
             sign_pos, sign_type = options['sign']
         else:
-            sign_pos, sign_type = 'begin', '-'
+            sign_pos, sign_type = 'begin', None
 
-        sign = -1 if value < 0 else 1
-        value = abs(value)
-
-        result = fmt_str.format(value)
-
-        if sign_type == '-':
-            sign = '-' if sign == -1 else ' '
+        if sign_type == '+':
+            sign = '-' if negative else '+'
+        elif sign_type == '-' and sign_pos == 'end':
+            sign = '-' if negative else ' '
         else:
-            sign = '-' if sign == -1 else '+'
+            sign = '-' if negative else ''
 
         if sign_pos == 'begin':
             result = sign + result
         else:
             result = result + sign
-            if sign != '-':
-                result = ' ' + result
 
-        if len(result) < len(fmt):
-            result = ' ' * (len(fmt) - len(result)) + result
-
-        if sign == ' ' and len(result) > len(fmt) and sign_pos == 'begin':
-            result = result[1:]
-        elif sign == ' ' and len(result) > len(fmt) and sign_pos == 'end':
-            result = result[:-1]
-
-        if len(result) > len(fmt):
+        if len(result) < width:
+            result = ' ' * (width - len(result)) + result
+        elif len(result) > width:
             result = '%' + result
 
         return result
